@@ -3,6 +3,7 @@ vt/proto.py: Conv.build()).  All randomness comes from the seeded rng handed in.
 import random
 from .proto import *
 from . import gens_big as GB
+from . import gens_r2 as R2
 
 ERR_KINDS_SMALL = ["ER_NO", "ER_BAD_DB_ERROR", "ER_PARSE_ERROR", "ER_NO_SUCH_TABLE", "ER_DUP_ENTRY",
                    "ER_ACCESS_DENIED_ERROR", "ER_UNKNOWN_ERROR", "ER_LOCK_DEADLOCK"]
@@ -326,6 +327,31 @@ def gen_C03(rng, tier):
         c.ping()
         if rng.random() < 0.8:
             c.quit()
+        out.append(c.build())
+    # resultsets around the one-byte column-count boundary; closing ids the server does not know
+    for n in [250, 251, 252, 256, 300]:
+        for binary in (False, True):
+            c = Conv("C03-wide%d-%s" % (n, "b" if binary else "t"), mode="lockstep")
+            cols = [col("c%d" % k, T_LONG) for k in range(n)]
+            ops = [op_start(cols), op_write_row([v_int("i32", k) for k in range(n)]), op_finish()]
+            if binary:
+                c.prepare("S", prep_ok(1, [], cols))
+                c.execute(1, [], ops)
+            else:
+                c.query("Q", ops)
+            c.ping()
+            c.quit()
+            out.append(c.build())
+    for i in range(6):
+        c = Conv("C03-close%d" % i, mode=["lockstep", "pipelined"][i % 2])
+        c.prepare("S", prep_ok(4, [], []))
+        c.cmd(com_close(4))
+        c.cmd(com_close(4))
+        c.cmd(com_close(1000 + i))
+        c.ping()
+        c.query("Q", [op_completed(1, 1)])
+        c.ping()
+        c.quit()
         out.append(c.build())
     return out
 
@@ -1102,7 +1128,9 @@ def stmt_history(rng, c, nstmts, nops, p_close=0.08, p_long=0.0, p_reprepare=0.0
         c.prepare("S%d" % sid, prep_ok(sid, [col("p%d" % k, t) for k, t in enumerate(tys)], [col("r", T_LONG)]))
         st[sid] = dict(np=np, tys=tys, bound=None, pend={})
 
-    for _ in range(nops):
+    for _j in range(nops):
+        if rng.random() < 0.12:
+            R2.interleave_other(rng, c, _j)
         live = [s for s in st]
         r = rng.random()
         if not live or r < 0.12 or (r < 0.12 + p_reprepare and live):
@@ -1239,6 +1267,7 @@ def c19_conversations(rng, tier):
         mk("default_init", lambda c: c.cmd(com_init_db("db")).cmd(com_query("USE y")).quit())
         convs[-1].shim = "default_init"
         mk("pipelined2", lambda c: c.ping().ping().query("B", rows_program(2)).cmd(com_close(9)).ping().quit(), mode="pipelined")
+    R2.c19_extra_convs(mk)
     rej = Conv("C19-reject", mode="lockstep", auth="reject")
     rej.ping()
     convs.append(rej)
@@ -1282,6 +1311,14 @@ def gen_C19(rng, tier, probe=None):
             s2["client"]["mode"] = "pipelined"
             s2["client"]["msgs"] = [{"b": wire[:k], "reply": True}]
             s2["transport"]["chunks"] = [rng.choice([1, 3, 0, 50]) for _ in range(6)]
+            if k % 3 == 0:
+                # every message arrives in a read of its own (so a truncated one starts with an empty buffer)
+                pos, cuts = 0, []
+                for m in sc["client"]["msgs"]:
+                    pos += len(m["b"])
+                    cuts.append(pos)
+                s2["transport"]["chunks"] = []
+                s2["transport"]["cuts"] = cuts
             s2["meta"] = {"conv": sc["id"], "fault": "eof", "at": k}
             out.append(s2)
     return out
@@ -1505,6 +1542,13 @@ def _c10_reprepare(rng, tier):
             c.prepare("S2", prep_ok(sid, [col("a", T_VAR_STRING), col("b", T_LONGLONG), col("c", T_TINY)], []))
             c.execute(sid, [p_bytes(T_VAR_STRING, b"xyz"), p_int(T_LONGLONG, 2**40), p_int(T_TINY, 3)], [op_completed(2, 0)])
             c.execute(sid, [p_bytes(T_VAR_STRING, b"w"), p_int(T_LONGLONG, 9), p_int(T_TINY, 4)], [op_completed(3, 0)], rebind=False)
+        elif variant == 3 and i % 8 == 3:
+            # a rejected PREPARE must not (re-)register anything
+            c.prepare("S", prep_ok(sid, [], []))
+            c.execute(sid, [], [op_completed(1, 0)])
+            c.cmd(com_close(sid))
+            c.prepare("BAD", prep_err("ER_PARSE_ERROR"))
+            c.cmd(com_execute(sid, []))
         else:
             # prepare / close / prepare again with the same id, long data in between for another id
             c.prepare("S", prep_ok(sid, [col("p", T_BLOB)], []))
@@ -1636,3 +1680,12 @@ def _c18_extra(rng, tier):
 
 
 gen_C18 = (lambda f: (lambda rng, tier: f(rng, tier) + _c18_extra(rng, tier)))(gen_C18)
+
+
+# second round of seeded defects
+gen_C01 = (lambda f: (lambda rng, tier: f(rng, tier) + R2.c01_extra(rng, tier)))(gen_C01)
+gen_C04 = (lambda f: (lambda rng, tier: f(rng, tier) + R2.c04_extra(rng, tier)))(gen_C04)
+gen_C05 = (lambda f: (lambda rng, tier: f(rng, tier) + R2.c05_extra(rng, tier)))(gen_C05)
+gen_C06 = (lambda f: (lambda rng, tier: f(rng, tier) + R2.c06_extra(rng, tier)))(gen_C06)
+gen_C07 = (lambda f: (lambda rng, tier: f(rng, tier) + R2.c07_extra(rng, tier)))(gen_C07)
+gen_C12 = (lambda f: (lambda rng, tier: f(rng, tier) + R2.c12_extra(rng, tier)))(gen_C12)
